@@ -75,7 +75,9 @@ def _step_line(s):
         toks.append(len(s["vals"]))
         toks += list(s["vals"])
     elif op == "apply":
-        toks = ["apply", s["dut"]]
+        toks = ["apply", s["dut"], s.get("mode", 0)]
+    elif op == "unrelated":
+        toks = ["unrelated", s.get("n", 0)]
     elif op == "setf":
         toks = ["setf", s["valid"]]
     elif op == "compare":
